@@ -207,10 +207,18 @@ fn interleave(flows: &[FlowSpec], paths: [&Vec<Op>; 2], merge: &[bool], inj: Inj
 
 pub fn check_program(prog: &Rc<Prog>, len: usize, default_variant: bool, injections: bool, stats: &mut Stats) {
     let setup = Setup { bind_externals: None, allow_fallbacks: true, handler: false, observers: vec![], seed: None };
-    let flows = vec![
+    let mut flows = vec![
         FlowSpec { name: if default_variant { None } else { Some("fa".into()) }, knot: "ka".into(), sfx: 'a' },
         FlowSpec { name: Some("fb".into()), knot: "kb".into(), sfx: 'b' },
     ];
+    // two named flows: the default flow is a bystander that is parked the whole time and is asked
+    // for its first line only after everything else (it must still be there, untouched)
+    let bystander: Option<Vec<Value>> = if default_variant {
+        None
+    } else {
+        flows.push(FlowSpec { name: None, knot: String::new(), sfx: 'r' });
+        run_tagged(prog, &setup, &[(Some(2), Op::Cont)], &flows).map(|(t, _)| t[2].clone())
+    };
     let pa = alone_paths(prog, &setup, &flows[0], len, stats);
     let pb = alone_paths(prog, &setup, &flows[1], len, stats);
     stats.add("alone_paths", (pa.len() + pb.len()) as u64);
@@ -244,7 +252,11 @@ pub fn check_program(prog: &Rc<Prog>, len: usize, default_variant: bool, injecti
                     }
                 }
                 for (inj, at) in variants {
-                    let ops = interleave(&flows, [a, b], &merge, inj, at);
+                    let mut ops = interleave(&flows, [a, b], &merge, inj, at);
+                    if bystander.is_some() {
+                        ops.push((None, Op::SwitchDefault));
+                        ops.push((Some(2), Op::Cont));
+                    }
                     let Some((t, fuel)) = run_tagged(prog, &setup, &ops, &flows) else { continue };
                     if fuel {
                         stats.inc("fuel_exhausted");
@@ -254,11 +266,15 @@ pub fn check_program(prog: &Rc<Prog>, len: usize, default_variant: bool, injecti
                     stats.add("transitions", ops.len() as u64);
                     stats.see("states", &format!("{:?}", t));
                     stats.see("injection_kinds", &format!("{inj:?}"));
-                    for (fi, exp) in [(0usize, &ta), (1usize, &tb)] {
+                    let mut expected: Vec<(usize, &Vec<Value>)> = vec![(0usize, &ta), (1usize, &tb)];
+                    if let Some(tr) = &bystander {
+                        expected.push((2, tr));
+                    }
+                    for (fi, exp) in expected {
                         let got = &t[fi];
                         // a removed flow's transcript is a prefix
                         let n = got.len().min(exp.len());
-                        let full = inj != Inj::RemoveOther;
+                        let full = inj != Inj::RemoveOther || fi == 2;
                         let bad_idx = (0..n).find(|&k| got[k] != exp[k]);
                         let bad = bad_idx.is_some() || (full && got.len() != exp.len()) || got.iter().any(|e| e.get("injected").is_some());
                         if bad {
